@@ -140,7 +140,10 @@ def generate(ctx):
             d.update({"min": lo, "max": hi})
         else:
             d.update({"order": rng.choice([1, 2, 0.5, 3, float("inf")]), "scale": rng.choice([1.0, 2.5, -1.0, -0.3, 10]),
-                      "dim": rng.choice([None, 0, 1, -1, [0, 1]]), "zero_row": rng.random() < 0.4})
+                      "dim": rng.choice([None, 0, 1, -1, [0, 1]]), "zero_row": rng.random() < 0.4,
+                      # epsilon only guards the division for (near-)zero vectors: every vector drawn here is either exactly
+                      # zero or has a norm far above it, so the post-condition is the same for all of these
+                      "epsilon": rng.choice([None, None, 1e-6, 1e-3, 0.05]), "tiny_row": rng.random() < 0.3})
         yield d
 
 
@@ -297,6 +300,13 @@ def _post(ctx, desc):
 
     def fresh():
         t = (torch.rand(shape, generator=g) - 0.5) * 8
+        if desc["which"] == "norm" and desc.get("epsilon"):
+            t = t + torch.sign(t) * 0.5       # |entries| >= 0.5: every non-zero norm is far above the largest epsilon drawn
+        if desc["which"] == "norm" and desc.get("tiny_row") and not desc.get("epsilon"):
+            if desc.get("dim") in (0,):       # small but ~1e5 x the default epsilon
+                t[:, -1] = t[:, -1] * 1e-7
+            else:
+                t[-1] = t[-1] * 1e-7
         if desc["which"] == "norm" and desc.get("zero_row"):
             t[0] = 0
             if desc.get("dim") in (0,):
@@ -343,6 +353,8 @@ def _post(ctx, desc):
             _CONF[id(hk)] = (desc["min"], desc["max"])
         else:
             dim = desc["dim"]
+            if desc.get("epsilon"):
+                kw["epsilon"] = desc["epsilon"]
             hk = Normalization(mod, attr, desc["order"], desc["scale"], tuple(dim) if isinstance(dim, list) else dim, **kw)
             _CONF.clear()
             _CONF[id(hk)] = (desc["order"], desc["scale"], tuple(dim) if isinstance(dim, list) else dim)
